@@ -2,6 +2,7 @@ pub mod adversarial;
 pub mod ast;
 pub mod enumerate;
 pub mod fmtspec;
+pub mod gen;
 pub mod model;
 pub mod par;
 pub mod report;
